@@ -185,6 +185,8 @@ class RustCloneAnalyzer(RustBaseAnalyzer):
         if field_expr is None:
             return False
         receiver = _get_receiver_node(field_expr)
+        while receiver is not None and receiver.type == "parenthesized_expression":
+            receiver = receiver.named_children[0] if receiver.named_children else None  # (a.clone()).clone()
         if receiver is None or receiver.type != "call_expression":
             return False
         return self._get_method_name(receiver) == "clone"
